@@ -6,9 +6,13 @@ from contracts import c02_status
 
 def build(chk, ip, runner):
     chk.design_ref = 'DESIGN.md section 5 C02'
+    chk.assumptions = ['OutputBuffer printing methods and the non-algorithm report sections only print (frame stubs)', 'socket layer, probes and message parsers abstract: any result, may raise', 'compression list fixed to a concrete two-element list in the output() unit (irrelevant to the status)']
+    chk.not_decided = ['main() / ssh-audit.py wrapper propagation of the status', 'whether a [fail] tag is *printed* for every failure note (empty note texts print no tag; C17 G1 shows the table has none)']
     chk.units = c02_status.units()
     chk.stubs = c02_status.stubs()
-    chk.lemmas = []
+    chk.lemmas = ['fold_is_worst', 'rep_s_len']
+    ip.models['json.dumps'] = c02_status.m_json_dumps
+    runner.call_site_overrides = {'ssh_audit:output_algorithm': c02_status.oa_contract()}
 
 
 if __name__ == '__main__':
